@@ -86,6 +86,7 @@ func skipValueCompat(data []byte) (p int, err error) {
 }
 
 type parseObserver struct {
+	grown  rjson.Buffer // has been through a handler traversal of a document nested far beyond the limit
 	used   rjson.Buffer // reused across every input of this generator run
 	failed rjson.Buffer // re-dirtied by a failing nested document before each use
 	orig   []byte
@@ -95,6 +96,7 @@ type parseObserver struct {
 var dirtyDoc = []byte(`[[[[{"a":[{"b":[1,`)
 var deepDoc = bytes.Repeat([]byte("["), 300)
 var tooDeepDoc = bytes.Repeat([]byte("["), 10001)
+var wayTooDeepDoc = append(bytes.Repeat([]byte("["), 10060), bytes.Repeat([]byte("]"), 10060)...)
 
 func newParseObserver() *parseObserver {
 	po := &parseObserver{}
@@ -103,10 +105,13 @@ func newParseObserver() *parseObserver {
 	d := append(append([]byte{}, deepDoc...), bytes.Repeat([]byte("]"), 300)...)
 	rjson.Valid(d, &po.used)
 	rjson.SkipValue(tooDeepDoc, &po.used)
+	// the handler machines have no depth limit: a traversal that declines every member leaves a stack
+	// longer than any skip function would ever grow
+	rjson.HandleArrayValues(wayTooDeepDoc, zeroArr, &po.grown)
 	return po
 }
 
-const parseObsLen = 18
+const parseObsLen = 24
 
 // observe runs the parse family on data and returns the observation vector:
 //
@@ -114,6 +119,7 @@ const parseObsLen = 18
 //	5,6 SkipValue(nil) ok,p   7,8 SkipValue(used) ok,p   9,10 stdlib streaming ok,p
 //	11,12 SkipValueFast(nil) ok,p  13,14 SkipValueFast(used) ok,p
 //	15 input unchanged  16 panics  17 stdlib observed (0 when skipped)
+//	18 Valid(grown)  19,20 SkipValue(grown) ok,p  21,22 SkipValueFast(grown) ok,p  23 panics in these
 func (po *parseObserver) observe(data []byte, o []int) []int {
 	o = o[:0]
 	po.orig = append(po.orig[:0], data...)
@@ -161,6 +167,13 @@ func (po *parseObserver) observe(data []byte, o []int) []int {
 	pair(func() (int, error) { return rjson.SkipValueFast(data, nil) })
 	pair(func() (int, error) { return rjson.SkipValueFast(data, &po.used) })
 	o = append(o, b2i(bytes.Equal(po.orig, data)), panics, b2i(!po.noStd))
+	before := panics
+	vg := false
+	guard(func() { vg = rjson.Valid(data, &po.grown) })
+	o = append(o, b2i(vg))
+	pair(func() (int, error) { return rjson.SkipValue(data, &po.grown) })
+	pair(func() (int, error) { return rjson.SkipValueFast(data, &po.grown) })
+	o = append(o, panics-before)
 	return o
 }
 
@@ -181,12 +194,13 @@ func genSweep(ss *specStates, sw *shardWriter, tier string, rng *rand.Rand, st *
 
 // sweepWorker holds the per-goroutine scratch of a sweep.
 type sweepWorker struct {
-	po   *parseObserver
-	j    jb
-	obs  []int
-	buf  []byte
-	rd   rjson.ValueReader // private reused reader (trees)
-	used rjson.Buffer      // private reused buffer (handlers)
+	po     *parseObserver
+	j      jb
+	obs    []int
+	buf    []byte
+	rd     rjson.ValueReader // private reused reader (trees)
+	rdWarm bool
+	used   rjson.Buffer // private reused buffer (handlers)
 }
 
 // parallelBases runs fn over the bases on all CPUs; every worker has its own observer, random
